@@ -1,4 +1,6 @@
--- stub: component `ptr` not built yet
+import Driver.Ptr
+open Driver
+
 def main : IO UInt32 := do
-  IO.eprintln "driver-ptr: not implemented"
-  return 2
+  runComponent Ptr.init Ptr.step
+  return 0
